@@ -267,7 +267,8 @@ let run_case (x : sx) : Stdlib.String.t =
              (match getf "keyq" with
               | A q :: k ->
                   let cps = List.map (function A c -> n_of_int (int_of_string c) | _ -> failwith "bad cp") k in
-                  Buffer.add_string b (if key_path (n_of_int (int_of_string q)) cps = path then "\tKP=1" else "\tKP=0")
+                  let want = if q = "0" then dot_path cps else key_path (n_of_int (int_of_string q)) cps in
+                  Buffer.add_string b (if want = path then "\tKP=1" else "\tKP=0")
               | _ -> ());
              if not (wf_node t) then Buffer.add_string b "\tWF=0";
              if not (acc_clean t) then Buffer.add_string b "\tWF=0";
